@@ -158,3 +158,60 @@ def body_of(events):
 
 def count(events, kind):
     return sum(1 for e in events if e[0] == kind)
+
+
+# --------------------------------------------------------------------------------------------
+# Structured stream: header blocks are handed over PRE-DELIMITED (the read_until_regex contract of
+# BaseIOStream is C11's subject), each followed by its own body buffer on which the real body
+# readers operate (read_bytes / read_until).  Bytes of a body that the protocol code leaves
+# unread when it asks for the next header block = framing desynchronisation (`desync`).
+from tornado.concurrent import Future as _Future  # noqa: E402
+from tornado.iostream import StreamClosedError as _SCE, UnsatisfiableReadError as _URE  # noqa: E402
+from vp.fakestream import FakeStream  # noqa: E402
+
+HDR_STREAM = ("HdrStream (harness/_httpin.py) over vp.fakestream.FakeStream: a header block is returned "
+              "pre-delimited by read_until_regex (honouring max_bytes as BaseIOStream does: C11), the body "
+              "readers then work on that message's body bytes; partial reads return min(n, seg, available)")
+
+
+class HdrStream(FakeStream):
+    def __init__(self, io_loop, msgs, eof=True, seg=None):
+        FakeStream.__init__(self, io_loop, b"", eof=eof, seg=seg)
+        self.msgs = list(msgs)
+        self.desync = False
+        self.hdr_reads = 0
+        self.hdr_max = []
+
+    def read_until_regex(self, regex, max_bytes=None):
+        assert regex == b"\r?\n\r?\n", regex
+        assert self._pending is None, "Already reading"
+        self.hdr_max.append(max_bytes)
+        if len(self.buf) > 0:
+            self.desync = True
+            self.close()
+            fut = _Future()
+            fut.set_exception(_SCE())
+            fut.exception()
+            return fut
+        if self._closed or not self.msgs:
+            return FakeStream.read_until_regex(self, regex, max_bytes)
+        hdr, body = self.msgs.pop(0)
+        self.hdr_reads += 1
+        fut = _Future()
+        if max_bytes is not None and len(hdr) > max_bytes:
+            e = _URE("delimiter not found within %d bytes" % max_bytes)
+            self.close(exc=e)
+            fut.set_exception(e)
+            fut.exception()
+            return fut
+        self.buf = body
+        self.read_log.append(hdr)
+        fut.set_result(hdr)
+        return fut
+
+
+def respond_ok(rec):
+    """on_finish hook: the application answers 200 with an empty body and finishes."""
+    rec.conn.write_headers(httputil.ResponseStartLine("HTTP/1.1", 200, "OK"),
+                           httputil.HTTPHeaders({"Content-Length": "0"}))
+    rec.conn.finish()
